@@ -659,12 +659,15 @@ func (obj *DenseFloat64MatrixJointIterator) Index() (int, int) {
   return obj.i, obj.j
 }
 func (obj *DenseFloat64MatrixJointIterator) Ok() bool {
-  return !(obj.s1.ptr == nil || obj.s1.GetFloat64() == float64(0)) ||
-         !(obj.s2 == nil || obj.s2.GetFloat64() == float64(0))
+  return obj.i != -1
 }
 func (obj *DenseFloat64MatrixJointIterator) Next() {
   ok1 := obj.it1.Ok()
   ok2 := obj.it2.Ok()
+  if !ok1 && !ok2 {
+    // both iterators are exhausted
+    obj.i, obj.j = -1, -1
+  }
   obj.s1.ptr = nil
   obj.s2 = nil
   if ok1 {
